@@ -564,15 +564,17 @@ func runConfigWatch(c *Ctx) ([]gal.Term, []string) {
 			}
 			time.Sleep(10 * time.Millisecond)
 		}
-		time.Sleep(150 * time.Millisecond)
-		mu.Lock()
-		counts = map[uint16]int{}
-		mu.Unlock()
-		time.Sleep(400 * time.Millisecond)
-		mu.Lock()
-		out[i].r1, out[i].r2 = counts[1], counts[2]
-		mu.Unlock()
-		out[i].adopted = out[i].r2 > 0 && out[i].r1*10 >= out[i].r2*8
+		// measured over windows of 200 ms until the replica is seen observed, for at most 3 s (long where the effect is due)
+		for t0 := time.Now(); time.Since(t0) < 3*time.Second && !out[i].adopted; {
+			mu.Lock()
+			counts = map[uint16]int{}
+			mu.Unlock()
+			time.Sleep(200 * time.Millisecond)
+			mu.Lock()
+			out[i].r1, out[i].r2 = counts[1], counts[2]
+			mu.Unlock()
+			out[i].adopted = out[i].r2 >= 4 && out[i].r1*10 >= out[i].r2*8
+		}
 	})
 	for i, sh := range shapes {
 		o := out[i]
@@ -586,7 +588,7 @@ func runConfigWatch(c *Ctx) ([]gal.Term, []string) {
 		c.Eval("config-watch "+sh.name, true)
 		if !o.adopted {
 			c.Violate("newer-map-ignored", fmt.Sprintf("the cluster map changed from (epoch %d, rev %d) to (epoch %d, rev %d) and now lists the replica of vBucket 1; "+
-				"400 ms later that copy is still not observed (%d requests for vBucket 1, %d for vBucket 2): its persisted seqno no longer holds events back",
+				"3 s later that copy is still not observed (%d requests for vBucket 1, %d for vBucket 2): its persisted seqno no longer holds events back",
 				o.old[0], o.old[1], o.nw[0], o.nw[1], o.r1, o.r2), rep)
 		}
 		cs = append(cs, gal.Tuple(gal.Tuple(gal.Z(o.old[0]), gal.Z(o.old[1])), gal.Tuple(gal.Z(o.nw[0]), gal.Z(o.nw[1])), gal.Bool(o.adopted)))
